@@ -50,8 +50,21 @@ K(s) == VS(s)
 Maps == {VM(<<>>, <<>>), VM(<<K(<<97>>)>>, <<VI(1)>>), VM(<<K(<<97>>), K(<<98>>)>>, <<VI(1), VI(2)>>),
          VMg(<<K(<<97>>), K(<<98>>)>>, <<VI(6), VI(5)>>, "msi"), VMg(<<K(<<97>>)>>, <<VS(<<120>>)>>, "mss")}
 \* length == number of loop iterations == elements seen
-CountLoop == <<Set("n", LI(0)), For1("i", X, <<Set("n", Bin("+", Var("n"), LI(1)))>>), PrintS(Var("n")), Text(<<47>>), PrintS(F("length", X))>>
+CountLoopE(e) == <<Set("n", LI(0)), For1("i", e, <<Set("n", Bin("+", Var("n"), LI(1)))>>), PrintS(Var("n")), Text(<<47>>), PrintS(F("length", e))>>
+\* the loop sequence is itself a filter chain (the for tag evaluates such chains on its own path)
+LoopSeqs == {X, F("reverse", X), F("sort", X), FA("slice", X, <<LI(1)>>), FA("merge", X, <<Arr(<<LI(7)>>)>>),
+             FA("default", X, <<Arr(<<LI(7), LI(8)>>)>>), F("reverse", FA("default", X, <<Arr(<<LI(7), LI(8)>>)>>)),
+             FA("default", F("reverse", X), <<Arr(<<LI(7), LI(8)>>)>>)}
 LoopCases == {[fam |-> "loopcount", x |-> v, e |-> X] : v \in ListVals(MaxList) \cup {VS(s) : s \in Strs(MaxStr)} \cup Maps}
+             \cup {[fam |-> "loopcount", x |-> v, e |-> e] : v \in {VL(l) : l \in IntLists(MaxList)} \cup {VLg(l, "ints") : l \in IntLists(2)} \cup {Null}, e \in LoopSeqs}
+             \cup {[fam |-> "loopcount", x |-> Null, e |-> FA("default", Var("undefinedvar"), <<Arr(<<LI(7), LI(8)>>)>>)],
+                   [fam |-> "loopcount", x |-> Null, e |-> F("reverse", FA("default", Var("undefinedvar"), <<Arr(<<LI(7), LI(8)>>)>>))],
+                   [fam |-> "loopcount", x |-> VM(<<K(<<97>>), K(<<98>>)>>, <<VI(1), VI(2)>>), e |-> F("keys", X)]}
+\* join then split with the same separator restores a list of separator-free strings (empty strings, other white space)
+JSElems == {VS(<<>>), VS(<<97>>), VS(<<120, 9, 121>>), VS(<<233>>), VS(<<10>>)}
+JSLists == UNION {[1..k -> JSElems] : k \in 1..MaxList}
+JoinSplitCases == {[fam |-> "joinsplit", x |-> VL(l), e |-> FA("split", FA("join", X, <<LS(sep)>>), <<LS(sep)>>)] :
+                     l \in JSLists, sep \in {<<32>>, <<44>>, <<124>>}}
 \* slice on strings and lists: every start / length incl. omitted
 SliceArgs == {<<LI(a)>> : a \in (-SliceRange)..SliceRange} \cup {<<LI(a), LI(b)>> : a \in (-SliceRange)..SliceRange, b \in (-SliceRange)..SliceRange}
 SliceSubjects == {VS(<<104, 233, 108, 108, 111>>), VS(<<97>>), VS(<<>>), VL(<<VI(1), VI(2), VI(3), VI(4)>>), VL(<<>>),
@@ -79,13 +92,23 @@ DecCases == {[fam |-> "dec", x |-> d, e |-> FA("round", X, a)] : d \in Eighths, 
             \cup {[fam |-> "dec", x |-> d, e |-> F("abs", X)] : d \in Eighths}
             \cup {[fam |-> "dec", x |-> d, e |-> FA("round", F("abs", X), <<LI(1)>>)] : d \in Eighths}
             \cup {[fam |-> "dec", x |-> VI(n), e |-> FA("round", X, <<LI(p)>>)] : n \in {-25, -15, -4, 0, 5, 14, 15, 25, 149, 150}, p \in {-1, -2, 0, 1}}
+\* number_format: exact decimals (multiples of 1/8 and of 1/4 around the group boundaries 1000, 10^6), integers,
+\* every number of decimals 0..3, default and explicit separators (multi-character, empty)
+NumFmtSubjects == Eighths \cup {VD(k * 25, 2) : k \in {3996, 3997, 3998, 3999, 4000, 4001, -3999, -3998, 39999, 40001, 399999}}
+                  \cup {VD(9996, 1), VD(9994, 1), VD(-9996, 1), VD(99996, 2), VD(99994, 2), VD(9999996, 1), VD(123456789, 2), VD(-123456789, 3)}
+                  \cup {VI(n) : n \in {0, 7, -7, 999, 1000, -1000, 12345, 999999, 1000000, -1234567}}
+NumFmtArgs == {<<>>, <<LI(0)>>, <<LI(1)>>, <<LI(2)>>, <<LI(3)>>, <<LI(2), LS(<<44>>)>>, <<LI(1), LS(<<44>>), LS(<<46>>)>>,
+               <<LI(2), LS(<<46>>), LS(<<>>)>>, <<LI(0), LS(<<46>>), LS(<<32>>)>>, <<LI(2), LS(<<100, 112>>), LS(<<116, 115>>)>>}
+NumFmtCases == {[fam |-> "numfmt", x |-> d, e |-> FA("number_format", X, a)] : d \in NumFmtSubjects, a \in NumFmtArgs}
 \* several list arguments at once
 MultiMerge == {[fam |-> "list", x |-> VL(l), e |-> FA("merge", X, <<Arr(<<LI(7), LI(8)>>), Arr(<<LI(6)>>)>>)] : l \in IntLists(MaxList)}
               \cup {[fam |-> "list", x |-> VL(l), e |-> FA("merge", X, <<X, Arr(<<>>), Arr(<<LI(6)>>)>>)] : l \in IntLists(MaxList)}
-AllCases == DecCases \cup MultiMerge \cup StrCases \cup RevCases \cup IdemCases \cup ListCases \cup LoopCases \cup SliceCases \cup DefaultCases \cup MapCases \cup NumCases
+AllCases == JoinSplitCases \cup NumFmtCases \cup DecCases \cup MultiMerge \cup StrCases \cup RevCases \cup IdemCases \cup ListCases \cup LoopCases \cup SliceCases \cup DefaultCases \cup MapCases \cup NumCases
 
-Prog(c) == IF c.fam = "loopcount" THEN CountLoop ELSE IF c.fam = "dec" THEN <<PrintS(c.e)>> ELSE Obs(c.e)
-Ctx(c) == IF c.fam = "default" /\ c.e.e.k = "var" /\ c.e.e.n = "undefinedvar" THEN EmptyFn ELSE ("x" :> c.x)
+RECURSIVE UsesX(_)
+UsesX(e) == e = X \/ (e.k = "filt" /\ (UsesX(e.e) \/ \E i \in 1..Len(e.args) : UsesX(e.args[i])))
+Prog(c) == IF c.fam = "loopcount" THEN CountLoopE(c.e) ELSE IF c.fam \in {"dec", "numfmt"} THEN <<PrintS(c.e)>> ELSE Obs(c.e)
+Ctx(c) == IF (c.fam = "default" /\ c.e.e.k = "var" /\ c.e.e.n = "undefinedvar") \/ (c.fam = "loopcount" /\ c.x = Null /\ c.e # X /\ ~UsesX(c.e)) THEN EmptyFn ELSE ("x" :> c.x)
 Ref(c) == Render(MkW(("main" :> Prog(c)), {}, {}, NoFault), "main", Ctx(c))
 
 RECURSIVE ExprTags(_)
@@ -107,7 +130,7 @@ CaseOf(c) ==
      runs |-> {[label |-> c.fam, tp |-> ("main" :> Source(Prog(c), LMin)), xcalls |-> [id \in {} |-> 0]]},
      expect |-> [ok |-> ref.ok, out |-> ref.out, err |-> ref.err, calls |-> [id \in {} |-> 0]]]
 
-Fams == {"str", "idem", "list", "loopcount", "slice", "default", "map", "num", "dec"}
+Fams == {"str", "idem", "list", "loopcount", "slice", "default", "map", "num", "dec", "numfmt", "joinsplit"}
 Init == cs \in {[part |-> f] : f \in Fams}
 Next == "part" \in DOMAIN cs /\ cs' \in {c \in AllCases : c.fam = cs.part /\ Ref(c).err # "frag"}
 Spec == Init /\ [][Next]_cs
